@@ -400,7 +400,7 @@ func (m c10) Case(c *Ctx, r *RNG) {
 	case 0:
 		tree = genLeaf(r, &base, res)
 	case 1:
-		tree = genChain(r, &base, res, c.Pick(r.Range(1, 30), r.Range(1, 200)))
+		tree = genChain(r, &base, res, c.Pick(r.Range(1, 60), r.Range(1, 200)))
 	default:
 		tree = genTree(r, &base, res, r.Range(1, 8))
 	}
@@ -490,6 +490,29 @@ func (m c10) Directed(c *Ctx) {
 		}
 		if g != evalFilter(&f, &t, rs) {
 			c.Violate("semantics/tree/empty", "%s evaluates to %v", f.String(), g)
+		}
+	}
+	// deep, narrow trees whose verdict hangs on the innermost node: "up to any depth"
+	c.Name = "deep-and-or"
+	for _, depth := range []int{8, 16, 31, 32, 33, 34, 35, 48, 64, 65, 100, 128, 129, 200, 256, 257, 500} {
+		for _, inner := range []FSpec{{Op: "and"}, {Op: "or"}} {
+			f := inner
+			for i := 0; i < depth; i++ {
+				if i%2 == 0 {
+					f = FSpec{Op: "and", Kids: []FSpec{f, {Op: "and"}}}
+				} else {
+					f = FSpec{Op: "or", Kids: []FSpec{{Op: "or"}, f}}
+				}
+			}
+			g, pi := evalLib(&f, buildResource(&t, rs))
+			c.Count("deep_trees")
+			if pi != nil {
+				c.Violate("panic@"+pi.Frame+"/deep-tree", "depth %d: %s", depth, pi)
+				continue
+			}
+			if want := evalFilter(&f, &t, rs); g != want {
+				c.Violate("semantics/tree/deep", "a chain of %d and/or nodes around %s evaluates to %v, want %v", depth, inner.String(), g, want)
+			}
 		}
 	}
 	c.Name = "witness-bytes-order"
